@@ -16,6 +16,7 @@ if ! git -C "$wt" apply "$dir/patch.diff"; then echo "RESULT patch-does-not-appl
 demo_pkg=$(grep -o "cp [^ ]*_test\.go[^ ]* [^ ]*" "$dir/demo.md" | head -1 | awk '{print $NF}' | sed 's#^/tmp/seed-C[0-9]*/##; s#/$##')
 case "$demo_pkg" in *.go) demo_pkg=$(dirname "$demo_pkg");; esac
 [ -z "$demo_pkg" ] && demo_pkg=$(grep -o "mkdir -p [^ ]*" "$dir/demo.md" | head -1 | awk '{print $NF}' | sed 's#^/tmp/seed-C[0-9]*/##; s#/$##')
+[ -z "$demo_pkg" ] && demo_pkg=$(grep -o "go test[^|]* \./[A-Za-z0-9_/]*[A-Za-z0-9_]" "$dir/demo.md" | head -1 | awk '{print $NF}' | sed 's#^\./##; s#/$##')
 [ -z "$demo_pkg" ] && demo_pkg=flows/engine
 [ -n "$DEMO_PKG" ] && demo_pkg="$DEMO_PKG"
 echo "demonstration package: $demo_pkg"
@@ -30,5 +31,8 @@ echo "== demonstration without the change (expected to pass)"
 for f in "$dir"/*_test.go; do [ -f "$f" ] && rm -f "$wt/$demo_pkg/$(basename "$f")"; done
 for c in $checks; do
   echo "== check $c against the changed tree"
+  cp /verif/evidence/$c.json /tmp/seedtest-ev-$$-$c.json 2>/dev/null
   (cd /verif && VERIF_REPO="$wt" ./check "$c" quick 2>&1 | grep "^violation\|^VIOLATION\|tier=quick\|^VACUOUS\|build failed" | cut -c1-220 | head -12; echo "exit=${PIPESTATUS[0]}")
+  [ -f /tmp/seedtest-ev-$$-$c.json ] && mv /tmp/seedtest-ev-$$-$c.json /verif/evidence/$c.json
+  rm -f /verif/replays/$c-*.json
 done
